@@ -1,3 +1,3 @@
 From OV Require Import Emu.EmuCoreDefs Emu.DecodeDefs.
 From Coq Require Import ExtrOcamlBasic.
-Extraction "emucore_x.ml" run step init oh_step raw_apply emit view decode mk_chans lint_chans.
+Extraction "emucore_x.ml" run step init oh_step raw_apply emit view decode decode_full mk_chans lint_chans.
